@@ -48,7 +48,7 @@ package kv
 //@ stable storeFlusher.family
 //@ stable storeFlusher.editLog
 //@ func storeFlusher.Commit
-//@   prop C01
+//@   prop C01 C02
 //@   requires sf.family != nil && sf.editLog != nil && typeis(sf.editLog, "*version.editLog") && (sf.builder != nil ==> sf.builder != sf.family)
 //@   modifies *
 //@   ensures[the_output_stays_pending_until_the_edit_log_is_committed] old(sf.builder) != nil ==> (calls(sf.family.removePendingOutput) == old(calls(sf.family.removePendingOutput)) + 1 && sf.family.commitsSeenAtRemove == calls(sf.family.commitEditLog))
@@ -263,7 +263,7 @@ package kv
 //@ end
 //@ stable family.store
 //@ func family.deleteObsoleteFiles
-//@   prop C02
+//@   prop C01 C02
 //@   clock
 //@   requires f.familyVersion != nil && f.store != nil
 //@   modifies *
